@@ -3,12 +3,13 @@
     generator's algorithms are total functions whose fuel, where used, never runs out.  The remainder of
     the property (templates, go/format, compiler, operating system) is explored by the check, not proved. *)
 From Coq Require Import List ZArith Lia Bool.
-From Gocc Require Import Base.Utf8 Base.Ranges Lex.Scan Lex.ScanProofs Front.Md Front.MdProofs LR.Parse LR.Complete LR.Exact LR.ErrorPos.
+From Gocc Require Import Base.Utf8 Base.Ranges Lex.Scan Lex.ScanProofs Lex.Pattern Lex.LexGen Lex.LexGenProofs Front.Md Front.MdProofs
+  Front.FScan Front.FScanProofs LR.Parse LR.Validate LR.Canonical LR.Complete LR.Exact LR.ErrorPos LR.Gen LR.GenProofs.
 Import ListNotations.
 
 (** generated lexer: every Scan call returns *)
-Theorem C09_generated_scan_terminates : forall d l, scan decode_rune d l <> None.
-Proof. intros d l. exact (scan_total decode_rune d decode_rune_progress l). Qed.
+Theorem C09_generated_scan_terminates : forall d l, Scan.scan decode_rune d l <> None.
+Proof. intros d l. exact (ScanProofs.scan_total decode_rune d decode_rune_progress l). Qed.
 Print Assumptions C09_generated_scan_terminates.
 
 (** generated parser: Parse returns on every input (validated canonical tables) *)
@@ -24,3 +25,27 @@ Print Assumptions C09_generated_parse_terminates.
 Theorem C09_md_total : forall l, length (load_md l) = length l.
 Proof. exact load_md_length. Qed.
 Print Assumptions C09_md_total.
+
+(** gocc's own stages, at model level (each model is compared with the code on every run of C01/C02/C04/C13):
+    the front-end scanner returns on every byte string (its fuel, the length of the source plus two, never runs out) ... *)
+Theorem C09_front_end_scanner_total : forall src, exists ts e, fscan_opt src = Some (ts, e) /\ fscan_all src = (ts, e).
+Proof. exact fscan_opt_total. Qed.
+Print Assumptions C09_front_end_scanner_total.
+
+(** ... the LR(1) generator (FIRST sets, closure, the collection of item sets, the tables) ends on every well-formed
+    grammar with tables or with a conflict report: its three work lists never run out of the stated fuel ... *)
+Theorem C09_lr_generator_total : forall g nn ntm symbols la_order p_acts terr fuel,
+  gen_wf g nn ntm symbols la_order terr = true ->
+  (2 ^ length (item_universe g la_order) < fuel)%nat ->
+  (exists tb an tr, gen_run g nn ntm symbols la_order p_acts terr fuel = GenOk tb an tr) \/
+  (exists an tr cells, gen_run g nn ntm symbols la_order p_acts terr fuel = GenConflict an tr cells).
+Proof. exact gen_run_total. Qed.
+Print Assumptions C09_lr_generator_total.
+
+(** ... and the lexer generator (inlining of the regular definitions, e-closure, symbol classes, the collection of
+    item sets) ends with a DFA on every well-formed lexical part (the e-closure is structural in the model: the
+    visited set that repaired defect D5 is not needed) *)
+Theorem C09_lexer_generator_total : forall g fuel, lex_wf g = true -> (lex_fuel g <= fuel)%nat ->
+  exists rows acts, lexgen g fuel = Some (rows, acts).
+Proof. exact lexgen_total. Qed.
+Print Assumptions C09_lexer_generator_total.
